@@ -21,6 +21,7 @@ type Env struct {
 	scopePkg *types.Package
 	depth    int
 	qdepth   int // number of enclosing quantifier binders (canonical bound-variable names)
+	tsubst   map[string]types.Type // callee type parameter name → actual type (contracts translated at a call site)
 	results  []Term
 	roles    map[string]string
 	self     *FuncInfo
@@ -130,6 +131,11 @@ func (fv *FV) localEnv(st *State, pos token.Pos) *Env {
 // resolveType turns type text from a contract into a Go type (or a spec type).
 func (fv *FV) resolveType(env *Env, text string) types.Type {
 	text = strings.TrimSpace(text)
+	if env != nil && env.tsubst != nil {
+		if t, ok := env.tsubst[text]; ok {
+			return t
+		}
+	}
 	switch text {
 	case "int":
 		return types.Typ[types.Int]
@@ -904,6 +910,45 @@ func (fv *FV) specCall(env *Env, c *SCall) Term {
 		b := fmt.Sprintf("b?u%d", env.qdepth+1)
 		now := sel(fv.heapGet(env.st, key), b)
 		return Term{S: fmt.Sprintf("(forall ((%s Int)) (! (=> (select %s %s) (= %s %s)) :pattern (%s)))", b, fv.allocTerm(env.old), b, now, sel(fv.heapGet(env.old, key), b), now), Sort: sBool}
+	case "old_maps_unchanged":
+		// every map (of the type of the argument) that was allocated in the old state has the keys and values it had
+		need(1)
+		if env.old == nil {
+			fv.sfail("old_maps_unchanged() needs an old state")
+		}
+		m := fv.spec(env, c.Args[0])
+		mt, ok := underMap(m.T)
+		if !ok {
+			fv.sfail("old_maps_unchanged() of a non-map")
+		}
+		mc := fv.mapInfo(mt)
+		b := fmt.Sprintf("b?u%d", env.qdepth+1)
+		var cs []string
+		for _, key := range []string{mc.dom, mc.val} {
+			now := sel(fv.heapGet(env.st, key), b)
+			cs = append(cs, fmt.Sprintf("(forall ((%s Int)) (! (=> (select %s %s) (= %s %s)) :pattern (%s)))", b, fv.allocTerm(env.old), b, now, sel(fv.heapGet(env.old, key), b), now))
+		}
+		return Term{S: and(cs...), Sort: sBool}
+	case "other_arrays_unchanged":
+		// every backing array allocated in the old state, except the one of the argument (as it was), is unchanged
+		need(1)
+		if env.old == nil {
+			fv.sfail("other_arrays_unchanged() needs an old state")
+		}
+		on := *env
+		on.st = env.old
+		if env.oldNames != nil {
+			on.names = env.oldNames
+		}
+		sl := fv.spec(&on, c.Args[0])
+		et := elemType(sl.T)
+		if et == nil {
+			fv.sfail("other_arrays_unchanged() of a non-slice")
+		}
+		key, _ := fv.elemComp(et)
+		b := fmt.Sprintf("b?u%d", env.qdepth+1)
+		now := sel(fv.heapGet(env.st, key), b)
+		return Term{S: fmt.Sprintf("(forall ((%s Int)) (! (=> (and (select %s %s) (not (= %s (sbase %s)))) (= %s %s)) :pattern (%s)))", b, fv.allocTerm(env.old), b, b, sl.S, now, sel(fv.heapGet(env.old, key), b), now), Sort: sBool}
 	case "ord":
 		need(3)
 		a := args()
@@ -1081,7 +1126,7 @@ func (fv *FV) specCall(env *Env, c *SCall) Term {
 
 // expandEnv: macro expansion environment — parameters bound to argument terms; heap = current env state.
 func (fv *FV) expandEnv(env *Env, sf *SpecFunc, a []Term) *Env {
-	n := &Env{fv: fv, st: env.st, old: env.old, names: map[string]Term{}, pc: sf.Pkg, depth: env.depth + 1, qdepth: env.qdepth, results: nil, scopePkg: nil}
+	n := &Env{fv: fv, st: env.st, old: env.old, names: map[string]Term{}, pc: sf.Pkg, depth: env.depth + 1, qdepth: env.qdepth, results: nil, scopePkg: nil, tsubst: env.tsubst}
 	for i, p := range sf.Params {
 		at := a[i]
 		if at.Lit && at.Sort == sInt && (p.Type == "byte") {
